@@ -467,6 +467,21 @@ class ExprMixin:
             return l is r
         if isinstance(l, VObj) and isinstance(r, VObj):
             return l.term == r.term
+        objs = self.zs.zsort(api.Obj)
+        if z3.is_expr(l) and l.sort() == objs and not is_sym(r) and type(r) not in (bool, int, str, tuple, list):
+            l = VObj(l)
+        if z3.is_expr(r) and r.sort() == objs and not is_sym(l) and type(l) not in (bool, int, str, tuple, list):
+            r = VObj(r)
+        if isinstance(l, VObj) and not is_sym(r) and type(r) not in (bool, int, str, tuple, list):
+            try:
+                return l.term == self.zs.lift(r, l.term.sort())       # a concrete python object: interned as an Obj constant
+            except TypeError:
+                return False
+        if isinstance(r, VObj) and not is_sym(l) and type(l) not in (bool, int, str, tuple, list):
+            try:
+                return self.zs.lift(l, r.term.sort()) == r.term
+            except TypeError:
+                return False
         if isinstance(l, VObj) and z3.is_expr(r) and r.sort() == l.term.sort():
             return l.term == r
         if isinstance(r, VObj) and z3.is_expr(l) and l.sort() == r.term.sort():
@@ -505,6 +520,10 @@ class ExprMixin:
         if not is_sym(cont) and not contains_sym(cont):
             if not is_sym(x):
                 return x in cont
+            if isinstance(x, VObj) and isinstance(cont, (dict, set, frozenset, tuple, list)) and all(type(y) not in (bool, int, str, tuple, list) for y in cont):
+                # an opaque object in a concrete collection of python objects (a table of the live module): it is one of
+                # them (each interned as an Obj constant with its real attribute values)
+                return self.lor(*[self.identical(x, y) for y in cont])
             if isinstance(cont, str):
                 return z3.Contains(z3.StringVal(cont), self.zs.lift(x, z3.StringSort()))
             return self.lor(*[self.eq(x, y) for y in cont])
